@@ -409,10 +409,13 @@ class C20(Check):
     def conc_steps(self, spec):
         from sim.core.sched import BatonScheduler
         text, files = self.conc_setup(spec)
-        app = flaw.create_app(text, list(files))
-        s = BatonScheduler(['T0'], [], 'line', CONC_WATCH)
-        s.run({'T0': lambda: call_app(app, make_environ('GET', '/'))})
-        return s.steps
+        try:
+            app = flaw.create_app(text, list(files))
+            s = BatonScheduler(['T0'], [], 'line', CONC_WATCH)
+            s.run({'T0': lambda: call_app(app, make_environ('GET', '/'))})
+            return max(s.steps, 10)
+        except Exception:
+            return 40      # (the plans are made all the same: what goes wrong is the executor's to report)
 
     def extra_plans(self, tier, base_seed):
         rng = Streams(base_seed)['conc']
@@ -498,7 +501,11 @@ sys.stdout.write(json.dumps(out))
         spec = plan['conc']
         text, files = self.conc_setup(spec)
         for k in spec['ks']:
-            app = flaw.create_app(text, list(files))       # the application the supervisor has just built: nobody has asked it yet
+            try:
+                app = flaw.create_app(text, list(files))       # the application the supervisor has just built: nobody has asked it yet
+            except Exception as e:
+                res.violate('C20/create_app-raised:%s@conc' % type(e).__name__, 'create_app(<traceback text>, %d files) raised %r' % (len(files), e))
+                return res
             got = {}
 
             def task(name, path):
